@@ -31,6 +31,8 @@ ITEMS = [
     # syntax variety that a whole-module re-emission must carry unchanged
     ("posonly_varargs", "def clamp(value, low, high, /, *rest, strict=False, **extra):\n    return value\n"),
     ("decorated_async", "import functools\n\n\n@functools.lru_cache(maxsize=None)\ndef cached(n: int = 3) -> int:\n    return n\n\n\nasync def fetch(url, *, timeout=1.0):\n    return url\n"),
+    # a sibling constant whose triple-quoted value has lines holding only blanks / a tab
+    ("multiline_string", 'TEMPLATE = """first line\n    \nthird line\n\t\nend"""\n'),
     ("control_flow", "if (FLAG := True):\n    LIMIT = 1\nelse:\n    LIMIT = 2\ntry:\n    import json\nexcept ImportError:\n    json = None\n"),
 ]
 MEMBERS = [
@@ -63,7 +65,7 @@ def build_cases(tier):
     for target in pj.KINDS:
         for p, s in pre_suf:
             for state in ("absent", "stale", "agree"):
-                for nl in (True, False):
+                for nl in (True, False, "ws"):  # "ws": the last line holds only indentation (no newline)
                     cases.append({"mode": "module", "target": target, "prefix": list(p), "suffix": list(s), "state": state, "newline": nl})
     # a module docstring (plain / with an aligned table, i.e. runs of spaces) in front of everything
     for target in pj.KINDS:
@@ -79,6 +81,12 @@ def build_cases(tier):
                 for order in ("class_first", "argparse_first"):
                     cases.append({"mode": "shared", "target": "class", "prefix": list(p), "suffix": list(s), "state": cstate,
                                   "astate": astate, "order": order, "newline": True})
+    # the class target is nested (Outer.ConfigClass); a top-level namesake (class / assignment) stands before or after Outer
+    for namesake in ("none", "class_before", "assign_before", "class_after"):
+        for state in ("absent", "stale", "agree"):
+            for sib in (False, True):
+                cases.append({"mode": "nested", "target": "class", "prefix": [], "suffix": [], "state": state, "newline": True,
+                              "namesake": namesake, "siblings": sib})
     mem = [(p, s) for p in seqs(len(MEMBERS), 2) for s in seqs(len(MEMBERS), 2) if not set(p) & set(s)]
     for p, s in mem:
         for state in ("absent", "stale", "agree"):
@@ -150,6 +158,8 @@ class C11(core.Check):
         shutil.rmtree(self._dir, ignore_errors=True)
         if case["mode"] == "shared":
             return self.run_shared(case)
+        if case["mode"] == "nested":
+            return self.run_nested(case)
         target = case["target"]
         truth = "function" if target == "class" else "class"
         method = case["mode"] == "method"
@@ -176,7 +186,7 @@ class C11(core.Check):
         if case.get("moddoc"):
             doc = MODULE_DOCS[case["moddoc"]]
             src = doc + "\n" + src
-        src = src.rstrip("\n") + ("\n" if case["newline"] else "")
+        src = src.rstrip("\n") + {True: "\n", False: "", "ws": "\n    "}[case["newline"]]
         if not src.strip():
             src = ""
         P.write(target, src)
@@ -273,5 +283,71 @@ def _run_shared(self, case):
 
 
 C11.run_shared = _run_shared
+
+NAMESAKE_CLASS = "class ConfigClass(object):\n    keep: int = 1\n"
+NAMESAKE_ASSIGN = "ConfigClass = dict\n"
+
+
+def _run_nested(self, case):
+    """The class target is Outer.ConfigClass; nothing outside it - in particular a top-level namesake - may change."""
+    P = pj.Project(self._dir)
+    P.names = {"class": "Outer.ConfigClass"}
+    P.write("function", pj.render("function", "v1"))
+    inner = "" if case["state"] == "absent" else pj.render("class", "v2" if case["state"] == "stale" else "v1")
+    body = []
+    if case["siblings"]:
+        body.append("    before: int = 0\n")
+    if inner:
+        body.append("".join("    " + ln + "\n" if ln.strip() else "\n" for ln in inner.splitlines()))
+    if case["siblings"] or not inner:
+        body.append("    def after(self, a=1):\n        return a\n")
+    outer = "class Outer(object):\n" + "\n".join(body)
+    ns = case["namesake"]
+    parts = ["import os\n"]
+    if ns == "class_before":
+        parts.append(NAMESAKE_CLASS)
+    if ns == "assign_before":
+        parts.append(NAMESAKE_ASSIGN)
+    parts.append(outer)
+    if ns == "class_after":
+        parts.append(NAMESAKE_CLASS)
+    src = "\n\n".join(p.rstrip("\n") for p in parts) + "\n"
+    P.write("class", src)
+    base = {"mode": "nested", "state": case["state"], "namesake": ns, "siblings": case["siblings"]}
+    exc, rep, out = P.sync("function", ["class", "function"], "api")
+    after = P.read("class")
+    sites = []
+    if exc is not None:
+        sites.append(site(False, dict(base, field="call"), fail="raise", **core.exc_obs(exc)))
+        sites.append(site(after == src, dict(base, field="failed_call_leaves_file"), fail="file_changed_by_failed_sync"))
+        return sites, (src, "nested"), [src, "raise"]
+    sites.append(site(True, dict(base, field="call")))
+    try:
+        tree = ast.parse(after)
+    except SyntaxError as e:
+        sites.append(site(False, dict(base, field="parses"), fail="syntax_error", msg=core.short(str(e), 60)))
+        return sites, (src, "nested"), [src, "syntax"]
+
+    def split(text):
+        t = ast.parse(text)
+        outer_node = next((n for n in t.body if isinstance(n, ast.ClassDef) and n.name == "Outer"), None)
+        outside = [ast.dump(n) for n in t.body if n is not outer_node]
+        members = None if outer_node is None else [ast.dump(n) for n in outer_node.body
+                                                   if not (isinstance(n, ast.ClassDef) and n.name == "ConfigClass")]
+        return outside, members
+
+    (out_b, mem_b), (out_a, mem_a) = split(src), split(after)
+    # an absent nested definition may be added at module level (there is no rule where it goes); everything else stays
+    added_ok = out_a == out_b or (case["state"] == "absent" and len(out_a) == len(out_b) + 1 and all(x in out_a for x in out_b))
+    sites.append(site(added_ok, dict(base, field="other_statements"), fail="other_statements_changed", before=len(out_b), after=len(out_a)))
+    sites.append(site(mem_a == mem_b, dict(base, field="sibling_members"), fail="sibling_members_changed"))
+    if case["state"] != "absent":
+        got = pj.extract("class", after, ["Outer", "ConfigClass"])
+        ok, bad = pj.agrees(got, "v1", "class")
+        sites.append(site(ok, dict(base, field="nested_target_agrees"), fail="target_disagrees", mismatch=";".join(bad)[:100]))
+    return sites, (src, "nested"), [src, after]
+
+
+C11.run_nested = _run_nested
 
 CHECK = C11
